@@ -4,7 +4,7 @@ from ..rules import c12
 
 def run(tier, replay=None):
     rep = common.Report("C12", tier)
-    cfgs = ["dev-std", "dev-nostd"] if tier == "quick" else mir.CONFIGS
+    cfgs = ["dev-std", "dev-nostd", "dev-serde"] if tier == "quick" else mir.CONFIGS
     mir.ensure_facts(cfgs)
     rep.configs = cfgs
     for cfg in cfgs:
